@@ -33,7 +33,7 @@ def cases(tier, seed):
         hsel = R.choice(["none", "scalar", "list", "list", "list_perm"])
         ksel = R.choice(["space", "letter", "list"])
         entry = R.choice(["load", "load", "simple", "args", "args"])
-        out.append(dict(nf=nf, hsel=hsel, ksel=ksel, entry=entry, seed=R.randrange(1 << 30)))
+        out.append(dict(nf=nf, hsel=hsel, ksel=ksel, entry=entry, seed=R.randrange(1 << 30), repeat=(i % 4 == 3)))
     for i in range(6 if tier == "quick" else 60):
         out.append(dict(nf=R.choice([1, 2, 3]), hsel=R.choice(["scalar", "list"]) if i % 2 else "list", ksel=R.choice(["space", "letter"]), entry="tile_fits" if i % 2 == 0 else "cli_multi_tan", seed=R.randrange(1 << 30)))
     return out
@@ -117,7 +117,13 @@ def run_case(spec, workdir):
     d = os.path.join(workdir, "in")
     os.makedirs(d)
     paths, layout = make_files(d, spec["nf"], R)
-    nf = spec["nf"]
+    if spec.get("repeat") and spec["entry"] in ("load", "simple", "args"):
+        # the same file listed more than once (e.g. two HDUs of one file): the selection is per list position
+        k = R.randrange(len(paths))
+        paths.insert(R.randrange(len(paths) + 1), paths[k])
+        layout = [dict(layout[int(os.path.basename(p)[1:-5])], file=int(os.path.basename(p)[1:-5])) for p in paths]
+    nf = len(paths)
+    fidx = [int(os.path.basename(p)[1:-5]) for p in paths]
     # selections valid for the layout
     common = sorted(set.intersection(*[set(l["image_hdus"]) for l in layout]))
     if spec["hsel"] == "none":
@@ -134,6 +140,13 @@ def run_case(spec, workdir):
         exp_h = [R.choice(l["image_hdus"]) for l in layout]
         if spec["hsel"] == "list_perm" and nf >= 2:
             exp_h = [layout[i]["image_hdus"][(i + 1) % 3] for i in range(nf)]
+        if spec.get("repeat"):
+            # make sure the repeated file gets two different HDUs
+            seen = {}
+            for i in range(nf):
+                if fidx[i] in seen and exp_h[i] == exp_h[seen[fidx[i]]]:
+                    exp_h[i] = [h for h in layout[i]["image_hdus"] if h != exp_h[i]][0]
+                seen.setdefault(fidx[i], i)
         hdu_index = list(exp_h)
     if spec["ksel"] == "space":
         wcs_key = " "
@@ -175,7 +188,7 @@ def run_case(spec, workdir):
             if p[0] == deepest:
                 a = tilegen.read_tile(out, p, "fits")
                 seen |= set(np.unique(a[np.isfinite(a)]).astype(int).tolist())
-        exp = {100 * f + h for f, h in enumerate(exp_h)}
+        exp = {100 * fidx[f] + h for f, h in enumerate(exp_h)}
         if seen != exp:
             probs.append("markers in the deepest tiles %s, selected HDUs have markers %s" % (sorted(seen), sorted(exp)))
         counters["tilings"] += 1
@@ -198,14 +211,14 @@ def run_case(spec, workdir):
         if len(descs) != nf or len(imgs) != nf or len(exs) != nf:
             probs.append("collection yields %d descriptions, %d images, %d export entries for %d files" % (len(descs), len(imgs), len(exs), nf))
         for i in range(min(nf, len(descs), len(imgs), len(exs))):
-            want = (i, exp_h[i], exp_k[i], shape_of(i, exp_h[i]))
+            want = (fidx[i], exp_h[i], exp_k[i], shape_of(fidx[i], exp_h[i]))
             fd = identify(descs[i], False)
             fi = identify(imgs[i], True)
             counters["items_identified"] += 2
             if fd[:4] != want:
                 probs.append("description %d is (file %d, hdu %d, key %r, shape %s); selected (file %d, hdu %d, key %r, shape %s)" % (i, fd[0], fd[1], KEYS[fd[2]] if fd[2] < 3 else fd[2], fd[3], want[0], want[1], KEYS[want[2]], want[3]))
-            if fi[:4] != want or fi[4] != 100 * i + exp_h[i]:
-                probs.append("image %d is (file %d, hdu %d, key %r, shape %s, marker %s); selected (file %d, hdu %d, key %r, marker %d)" % (i, fi[0], fi[1], KEYS[fi[2]] if fi[2] < 3 else fi[2], fi[3], fi[4], want[0], want[1], KEYS[want[2]], 100 * i + exp_h[i]))
+            if fi[:4] != want or fi[4] != 100 * fidx[i] + exp_h[i]:
+                probs.append("image %d is (file %d, hdu %d, key %r, shape %s, marker %s); selected (file %d, hdu %d, key %r, marker %d)" % (i, fi[0], fi[1], KEYS[fi[2]] if fi[2] < 3 else fi[2], fi[3], fi[4], want[0], want[1], KEYS[want[2]], 100 * fidx[i] + exp_h[i]))
             if fd[:4] != fi[:4] or fd[5] != fi[5]:
                 probs.append("description %d and image %d refer to different HDUs / WCS" % (i, i))
             if os.path.abspath(exs[i][0]) != os.path.abspath(paths[i]) or exs[i][1] != exp_h[i]:
